@@ -22,6 +22,10 @@ def check_n_is_segment_count(ctx):
 
 def check(ctx):
     check_n_is_segment_count(ctx)
+    # ... and on the single-bin path navg is the number of segments actually averaged (K = navg = number of starts)
+    from ..dispatch import check_single_fields, setup as _dsetup
+    _dsetup()
+    check_single_fields(ctx, rule="R5-single-bin-navg", only=("K", "navg"))
     T = Table(ctx.repo); ref = reference()
     ctx.analysed(GETATTR)
     where = ctx.repo.where(GETATTR, ctx.repo.get(GETATTR))
